@@ -310,7 +310,7 @@ fn program_candidates(p: &Program) -> Vec<Program> {
         q.extra_holders -= 1;
         out.push(q);
     }
-    if p.shared_ref && !p.threads.iter().any(|t| t.from_shared) {
+    if p.shared_ref && !p.shared_only && !p.threads.iter().any(|t| t.from_shared) {
         let mut q = p.clone();
         q.shared_ref = false;
         out.push(q);
